@@ -145,7 +145,9 @@ func withModel(ops []sop, extra func(i int, m KV)) []sop {
 func userPropOps() []sop {
 	mk := func(k, v string, full bool) sop {
 		return sop{Name: fmt.Sprintf("AddUserProp(%q,%q)", k, v), Full: full,
-			Call:  func(q any) { reflect.ValueOf(q).MethodByName("AddUserProp").Call([]reflect.Value{reflect.ValueOf(k), reflect.ValueOf(v)}) },
+			Call: func(q any) {
+				reflect.ValueOf(q).MethodByName("AddUserProp").Call([]reflect.Value{reflect.ValueOf(k), reflect.ValueOf(v)})
+			},
 			Model: func(m KV) { m["UserProperties"] = appendList(m["UserProperties"], fmt.Sprintf("[%q %q]", k, v)) }}
 	}
 	spread := sop{Name: "AddUserProp(kv...) from a caller's slice that is overwritten afterwards",
@@ -381,8 +383,10 @@ func alphabet(name string) []sop {
 				m["Filters"] = appendList(appendList(m["Filters"], `filter("sensors/+/temperature",1)`), `filter("sensors/+/humidity",2)`)
 			}})
 		add(sop{Name: "AddFilters(two at once)",
-			Call:  func(q any) { q.(*mq.Subscribe).AddFilters(fs[1], fs[0]) },
-			Model: func(m KV) { m["Filters"] = appendList(appendList(m["Filters"], render(reflect.ValueOf(fs[1]))), render(reflect.ValueOf(fs[0]))) }})
+			Call: func(q any) { q.(*mq.Subscribe).AddFilters(fs[1], fs[0]) },
+			Model: func(m KV) {
+				m["Filters"] = appendList(appendList(m["Filters"], render(reflect.ValueOf(fs[1]))), render(reflect.ValueOf(fs[0])))
+			}})
 	case "Unsubscribe":
 		add(setOps("SetPacketID", "PacketID", 1, u16...)...)
 		add(userPropOps()...)
